@@ -105,6 +105,10 @@ fn replay(args: &[String]) -> i32 {
             "phys": phys.describe(), "key_alpha": conc.key_alpha, "val_alpha": conc.val_alpha,
             "blob": blob.is_some(), "filter": meta.get("filter").cloned().unwrap_or(json!([])),
             "shared": share_pairs,
+            "bcfg": blob.as_ref().map_or(json!({"thr": 0, "target": 0, "stale": 0, "cutoff": 0}), |b| json!({
+                "thr": b.threshold, "target": b.file_target.min(1_000_000_000),
+                "stale": (f64::from(b.staleness) * 1_000_000.0).round() as u64,
+                "cutoff": (f64::from(b.age_cutoff) * 1_000_000.0).round() as u64})),
             "fault_line": meta.get("fault_line").cloned().unwrap_or(json!(0)),
             "big": blob.as_ref().map_or(vec![], |b| (1..=6000i64).filter(|v| conc.val_len(*v) >= b.threshold as usize).collect::<Vec<_>>())},
             "ret": "ok", "rk": "ok", "ro": false, "info": {}, "st": sess.project(), "obs": sess.observe()});
